@@ -151,6 +151,8 @@ class Mode(LogMixin):
         """
         # remove argument so we do not repost this
         kwargs.pop('_from_bcp', None)
+        # the wait queue of the queue event which starts this mode belongs to that event only: never repost it
+        queue = kwargs.pop('queue', None)
         self.debug_log("Received request to start")
 
         if self.config['mode']['game_mode'] and not (self.machine.game and self.player):
@@ -177,11 +179,11 @@ class Mode(LogMixin):
         This is posted before the "mode_(name)_starting" event.
         '''
 
-        if self.config['mode']['use_wait_queue'] and 'queue' in kwargs:
+        if self.config['mode']['use_wait_queue'] and queue is not None:
 
             self.debug_log("Registering a mode start wait queue")
 
-            self._mode_start_wait_queue = kwargs['queue']
+            self._mode_start_wait_queue = queue
             assert isinstance(self._mode_start_wait_queue, QueuedEvent)
             self._mode_start_wait_queue.wait()
 
@@ -223,10 +225,6 @@ class Mode(LogMixin):
                     self.stop_methods.append(result)
 
         self._setup_device_control_events()
-
-        if self._mode_start_wait_queue:
-            # we hold this wait queue until the mode stops: do not hand it to the handlers of our own queue event
-            kwargs = {k: v for k, v in kwargs.items() if k != 'queue'}
 
         self.machine.events.post_queue(event=MODE_STARTING_EVENT_TEMPLATE.format(self.name),
                                        callback=self._started, **kwargs)
